@@ -13,6 +13,8 @@ _T = [
     "C11_attach_exposes_layer", "C11_empty_view_is_emptiness", "C11_empties_readout_agrees",
     "C11_cells_exact", "C11_select_exact", "C11_select_filters_only", "C11_select_one_extreme",
     "C11_select_list_is_mask", "C11_only_empty_is_actual_emptiness",
+    "C11_reserved_names_are_cell_class_attributes", "C11_cell_protocol_names_reserved",
+    "C11_builtin_empty_is_created_layer", "C11_layer_never_shadows_cell_attribute",
     "C18_layers_add_reject_unchanged", "C18_layers_create_reject_unchanged", "C18_layers_add_rejects_exactly",
     "C18_layers_step_reject_unchanged", "C18_layers_rejected_calls_invisible",
 ]
@@ -24,8 +26,10 @@ TRUSTED = [
     "floats that are multiples of 1/4: exact in binary64); the model is untyped Int",
     "numpy arrays are objects with identity (the model's heap): `a[...] = v` and np.copyto mutate, np.where allocates",
     "Python attribute lookup: a data descriptor on the class wins over the instance dict (PropertyDescriptor), hasattr() "
-    "for the clash check; the model's list of Cell attribute names is tied only through the names the generator uses "
-    "(agents, coordinate, capacity, is_empty, _agents, neighborhood, empty, a, b, c)",
+    "for the clash check; the model's list of Cell attribute names is generated (Gen/LayersTables.lean: AST of class Cell "
+    "and of the dynamic GridCell class dict, ~100 lines of `ast` code in harness/layers_common.py, plus dir() of a bare "
+    "Python class) and proved equal to dir(grid.cell_klass) of the running code on every check; the generator draws "
+    "clashing names from that table",
     "occupancy is modelled minimally (who is in which cell); neighbourhoods, get_neighborhood_mask, random cell "
     "selection, copy/pickle of grids with layers (C19) are not modelled here",
     "layers shared between two grids, `layer.data = array` on legacy layers, unary ufuncs called with an out-array, "
@@ -66,6 +70,7 @@ def generate_rejecting(rng, tier, count):
         yield L.gen_scenario(rng, rejecting=True)
 
 
+gen_tables = L.gen_tables
 run_impl = L.run_impl
 oracle = L.oracle
 tags = L.tags
